@@ -212,6 +212,9 @@ inductive Shape where
   built; the result itself does not act on it, the `ExtendedToOriginalDecorator` above it reads it
   (`getattr` / `hasattr` on every use) -/
   | fsink (late b : Bool) (f : Flavour)
+  /-- `ExtendedToStreamDecorator(StreamFailFast(callback))`: a stream decorator whose stream target is itself a
+  `StreamFailFast` with a callback of its own (recorded) — which has nothing to do with the decorator's `failfast` -/
+  | sff
   | tfr (c : Shape)
   | multi (cs : List Shape)
   | e2s (c : Shape)
@@ -248,6 +251,7 @@ def caps : Shape → Caps
   | .etod _ => {}
   | .deco _ | .tagger _ _ _ => { done := false }     -- `failfast`: a property forwarding to the decorated result
   | .fsink _ _ f => { f.caps with failfast := true }
+  | .sff => { progress := false, done := false }
   | .tfr _ => {}
   | .multi _ => { progress := false }
   | .e2s _ => { progress := false, done := false }
@@ -452,6 +456,7 @@ mutual
   | .deco c => St c
   | .tagger _ _ c => St c
   | .fsink _ _ _ => Sink
+  | .sff => E2S × Nat      -- the decorator, and how often the inner `StreamFailFast` called its callback
   | .tfr c => TfrOwn × St c
   | .multi cs => TT × StL cs
   | .e2s c => E2S × St c
@@ -471,6 +476,7 @@ def failfastOf : (s : Shape) → St s → Bool
   | .deco c, st => failfastOf c st
   | .tagger _ _ c, st => failfastOf c st
   | .fsink _ _ _, st => st.failfast
+  | .sff, (own, _) => own.failfast
   | .tfr _, (own, _) => own.tt.failfast
   | .multi cs, (_, inner) => (failfastL cs inner).headD false
   | .e2s _, (own, _) => own.failfast
@@ -489,6 +495,7 @@ def shouldStopOf : (s : Shape) → St s → Bool
   | .deco c, st => shouldStopOf c st
   | .tagger _ _ c, st => shouldStopOf c st
   | .fsink _ _ _, st => st.shouldStop
+  | .sff, (own, _) => own.shouldStop
   | .tfr c, (_, inner) => shouldStopOf c inner
   -- `any(result.shouldStop for result in self._results)`: each target adapter's `shouldStop` property, i.e. its own
   -- `_shouldStop` for a target without the attribute
@@ -509,6 +516,7 @@ def wasSuccessfulOf : (s : Shape) → St s → Bool
   | .deco c, st => wasSuccessfulOf c st
   | .tagger _ _ c, st => wasSuccessfulOf c st
   | .fsink _ _ _, st => st.ok
+  | .sff, (own, _) => own.errors.isEmpty
   | .tfr c, (_, inner) => wasSuccessfulOf c inner
   | .multi cs, (_, inner) => (wasSuccessfulL cs inner).all id
   | .e2s _, (own, _) => own.errors.isEmpty
@@ -526,6 +534,7 @@ def currentTagsOf : (s : Shape) → St s → TagSet
   | .deco c, st => currentTagsOf c st
   | .tagger _ _ c, st => currentTagsOf c st
   | .fsink _ _ _, st => st.tags.cur
+  | .sff, (own, _) => own.tags.cur
   | .tfr _, (own, _) => own.tt.tags.cur
   | .multi _, (own, _) => own.tags.cur
   | .e2s _, (own, _) => own.tags.cur
@@ -702,6 +711,9 @@ def e2sStep (I : Iface σ) (own : E2S) (inner : σ) (c : Call) : E2S × σ :=
   | .done | .progress => (own, inner)
 end adapters
 
+/-- a stream target that is no result (nothing to replay the events to) -/
+def nullTarget : Iface Unit := ⟨{}, fun _ _ => (), fun _ => false⟩
+
 /-- `TestResult.startTestRun` / `startTest` / `stopTest` / `tags` on the `MultiTestResult` object itself -/
 def multiOwn (own : TT) (c : Call) : TT :=
   match c with
@@ -726,6 +738,10 @@ def step : (s : Shape) → St s → Call → St s
       | .startTest t => step ch (step ch st (.startTest t)) (.tags n g)
       | c => step ch st c
   | .fsink _ _ f, st, c => sinkStep f st c     -- (an assignment through the adapter above lands in the attribute)
+  | .sff, (own, n), c =>
+      -- the decorator as over any stream target; the inner `StreamFailFast` sees the final status events only:
+      -- `fail` (an error or a failure) and `uxsuccess` call its callback
+      ((e2sStep nullTarget own () c).1, match c with | .add k _ _ => if k.passing then n else n + 1 | _ => n)
   | .tfr ch, (own, inner), c => tfrStep ⟨caps ch, step ch, failfastOf ch⟩ own inner c
   | .multi cs, (own, inner), c =>
       -- (`_keeping_failfast`: the base class's assignments to `failfast` during `startTestRun` are ignored)
@@ -749,6 +765,7 @@ def init : (s : Shape) → St s
   | .deco c => init c
   | .tagger _ _ c => init c
   | .fsink _ b _ => ({ failfast := b } : Sink)
+  | .sff => (({} : E2S), 0)
   | .tfr c => (({} : TfrOwn), init c)
   | .multi cs =>
       -- `_keeping_failfast(super().__init__)`: constructing the wrapper assigns nothing to the wrapped results
@@ -790,6 +807,7 @@ def leaves : (s : Shape) → St s → List LeafSt
   | .deco c, st => leaves c st
   | .tagger _ _ c, st => leaves c st
   | .fsink _ _ f, st => [.sink f st]
+  | .sff, _ => []
   | .tfr c, (_, inner) => leaves c inner
   | .multi cs, (_, inner) => leavesL cs inner
   | .e2s c, (_, inner) => leaves c inner
@@ -811,6 +829,7 @@ def Shape.wf : Shape → Bool
   | .etod (.fsink _ _ f) => !f.caps.failfast
   | .etod c => c.wf
   | .fsink _ _ _ => false
+  | .sff => true
   | .deco c | .tagger _ _ c => c.wf
   | .tfr (.etod c) | .e2s (.etod c) => (Shape.etod c).wf
   | .tfr _ | .e2s _ => false
@@ -824,7 +843,7 @@ end
 
 mutual
 def Shape.noStream : Shape → Bool
-  | .e2s _ => false
+  | .e2s _ | .sff => false
   | .etod c | .deco c | .tagger _ _ c | .tfr c => c.noStream
   | .multi cs => Shape.noStreamL cs
   | _ => true
